@@ -315,6 +315,11 @@ func mixCases(prop string) []Case {
 	} {
 		cases = append(cases, apiCaseAsset(prop, tag+"/precision-asset", st, nil, "USD/2"))
 	}
+	// spellings that are not the shortest one are assets of their own ("USD/0" is not "USD")
+	for _, as := range []string{"USD/0", "EUR/02"} {
+		st := []string{sendFixed(as, "{ @a @b }", "{ max %C to @d remaining to @e }")}
+		cases = append(cases, apiCaseAsset(prop, tag+"/precision-asset", st, nil, as))
+	}
 	av := map[string][2]string{"as": {"asset", "asset:USD"}, "n": {"number", "num"}}
 	add([]string{"send [$as $n] (\n  source = { @a @b }\n  destination = { max [$as $n] to @d remaining to @e }\n)"}, av)
 	add([]string{"send [$as *] (\n  source = { @a max [$as $n] from @b }\n  destination = { max [$as $n] kept remaining to @d }\n)"}, av)
